@@ -15,6 +15,7 @@
 #include "libvpsc/assertions.h"
 #include <map>
 #include <set>
+#include "c11_search.h"
 using namespace Avoid;
 using vh::hx;
 
@@ -57,8 +58,10 @@ static void countEdges(Router *rt, long &n, long &dis) {
 // (Model/CheckpointLegs.lean).
 struct ObsRouter : public Router {
     std::vector<std::pair<unsigned, long>> log;
+    c11s::SearchTap *tap = nullptr;
     ObsRouter(unsigned flags) : Router(flags) {}
     bool shouldContinueTransactionWithProgress(unsigned, unsigned phase, unsigned, double) override {
+        if (tap && phase == TransactionPhaseCrossingDetection) tap->crossing();
         if (phase == TransactionPhaseRouteSearch || phase == TransactionPhaseCrossingDetection ||
             phase == TransactionPhaseRerouteSearch || phase == TransactionPhaseCompleted) {
             long n, d; countEdges(this, n, d);
@@ -88,6 +91,7 @@ struct ErrCapture {
 
 struct Scene {
     ObsRouter *router;
+    c11s::SearchTap tap;
     int stepNo = 0;
     std::vector<ShapeD> shapes; std::vector<PinD> pins; std::vector<JuncD> juncs; std::vector<ConnD> conns;
     bool frac;
@@ -131,12 +135,14 @@ struct Scene {
                 v.push_back(c.cpd.empty() ? Checkpoint(c.cps[i]) : Checkpoint(c.cps[i], (ConnDirFlags) c.cpd[i].first, (ConnDirFlags) c.cpd[i].second));
             c.ref->setRoutingCheckpoints(v);
         }
+        tap.conns[c.ref->id()] = {c.ref, c.orth};
         c.live = true;
     }
     // processTransaction(); "skips": the connectors for which generateCheckpointsPath reported a skipped
     // checkpoint during this transaction ("Warning: skipping checkpoint for connector <id> at (x, y).")
     void transact() {
         std::string text;
+        tap.begin();
         { ErrCapture cap; router->processTransaction(); text = cap.finish(); }
         std::set<int> sk;
         const std::string key = "skipping checkpoint for connector ";
@@ -177,6 +183,7 @@ struct Scene {
             pts("route", c.id, c.ref->route());
             pts("disp", c.id, c.ref->displayRoute());
         }
+        fputs(tap.take().c_str(), stdout);      // the searches of this transaction (c11_search.h)
         observeVisibility();
         printf("endstep\n");
         ++stepNo;
@@ -342,6 +349,7 @@ int main(int argc, char **argv) {
         try {
         sc.router = new ObsRouter((allowOrth ? OrthogonalRouting : 0) | (allowPoly ? PolyLineRouting : 0));
         sc.router->setTransactionUse(true);
+        sc.tap.router = sc.router; sc.tap.caseIdx = k; sc.router->tap = &sc.tap; sc.router->setDebugHandler(&sc.tap);
         sc.router->setRoutingParameter(shapeBufferDistance, buffer);
         double nudge = r.coin() ? 4.0 : 1.0;
         sc.router->setRoutingParameter(idealNudgingDistance, nudge);
@@ -637,6 +645,7 @@ int main(int argc, char **argv) {
                 } else if (kind == 16) {                            // delete a connector
                     std::vector<int> lc; for (auto &c : sc.conns) if (c.live) lc.push_back(c.id);
                     if (lc.size() > 1) { ConnD &c = sc.conns[r.pick(lc)]; printf("op delconn %d\n", c.id); fflush(stdout);
+                        sc.tap.conns.erase(c.ref->id());
                         sc.router->deleteConnector(c.ref); c.live = false; c.ref = nullptr;
                         // deleteConnector queues no action, so processTransaction() would return
                         // without routing; touch a shape so that the freed pin can be taken
@@ -668,6 +677,7 @@ int main(int argc, char **argv) {
             sc.observe();
         }
         vh::endCase();
+        sc.router->setDebugHandler(nullptr);
         delete sc.router;
         } catch (vpsc::CriticalFailure &f) {
             printf("assert %s\n", oneLine(f.what()).c_str());
